@@ -1,8 +1,8 @@
 package props
 
 import (
-	"regexp"
 	"fmt"
+	"regexp"
 	"strings"
 	"testing"
 
